@@ -16,7 +16,7 @@ RULE = ("cells = catalogue (all families x information sets) + Hypothesis-genera
         "layout, message != 0; distinct = (cell, layout, message hash).")
 ASSUMPTIONS = ["Hamming and Reed-Muller override inverse_encode with a docstring that promises single-block batches only: for those two an exception "
                "on multi-block / 3-D layouts is accepted (counted as layout_rejected); a returned tensor with other values never is",
-               "RM inverse (brute force over 2^k messages) is exercised for k<=11 only"]
+               "RM inverse (brute force over 2^k codewords inside the library) is exercised for k<=16; RM(3,5), k=26, is skipped"]
 CHK = "c04:check_case"
 
 LAYOUTS = [("1d",), ("B", 1), ("B", 5), ("B1xB2", 2, 3), ("multi", 3, 2), ("multi", 1, 4), ("multi3d", 2, 2, 3)]
@@ -54,11 +54,15 @@ def check_case(ctx, cell, case):
             return
         raise
     n, k = enc.code_length, enc.code_dimension
-    if spec["family"] == "rm" and k > 11:
-        ctx.cls("rm_k_gt_11_skipped")
+    if spec["family"] == "rm" and k > 16:
+        ctx.cls("rm_k_gt_16_skipped")
         return
     cell["layout"] = layout[0]
-    if layout[0] == "all":
+    if layout[0] == "all" and spec["family"] == "rm" and k > 11:
+        # the Reed-Muller inverse enumerates 2^k codewords per call: unit vectors, all-ones, zero and a few random messages
+        M = c01.messages_for(k, case.get("seed", ctx.seed), nrand=6)[0]
+        ctx.cls("rm_large_k_inverse")
+    elif layout[0] == "all":
         M = c01.messages_for(k, 0)[0]
     elif "message" in case:
         M = np.asarray(case["message"], dtype=np.float32)
@@ -143,7 +147,7 @@ def check_reject(ctx, cell, case):
     except ValueError:
         return
     n, k = enc.code_length, enc.code_dimension
-    if spec["family"] == "rm" and k > 11:
+    if spec["family"] == "rm" and k > 16:
         return
     for name, blk, fn in (("encode", k, lambda t: enc(t)), ("inverse_encode", n, lambda t: enc.inverse_encode(t)),
                           ("calculate_syndrome", n, lambda t: enc.calculate_syndrome(t))):
